@@ -37,7 +37,7 @@ func (Engine) Info(prop string) core.Info {
 			"goroutine choice between two environment events is the Go runtime's at GOMAXPROCS=1",
 			"the TNC is a model: it answers as the AGWPE description and Direwolf's documented behaviour say, nothing more",
 		},
-		QuickRuns:    70000,
+		QuickRuns:    60000,
 		ThoroughRuns: 1200000,
 		WatchdogSec:  120,
 	}
